@@ -164,9 +164,19 @@ def declare(spec, cfg, poly=False, ocp=None, stage=None, with_method=True, paren
         i += r * c
     assert i == spec.nx, 'xshape does not add up to nx'
     b.us = []
-    for i in range(spec.nu):
-        sc = float(spec.uscale[i]) if spec.uscale is not None else 1
-        b.us.append(st.control(scale=sc))
+    b.ugroups = []
+    if getattr(spec, 'ushape', None):
+        assert sum(spec.ushape) == spec.nu and spec.uscale is None, 'ushape must add up to nu (element-wise control scales are not modelled)'
+        for n_ in spec.ushape:
+            u_ = st.control(n_)
+            b.ugroups.append(u_)
+            for j in range(n_):
+                b.us.append(u_ if n_ == 1 else u_[j])
+    else:
+        for i in range(spec.nu):
+            sc = float(spec.uscale[i]) if spec.uscale is not None else 1
+            b.us.append(st.control(scale=sc))
+            b.ugroups.append(b.us[-1])
     b.zs = []
     b.zgroups = []
     if getattr(spec, 'zshape', None):
@@ -202,6 +212,10 @@ def declare(spec, cfg, poly=False, ocp=None, stage=None, with_method=True, paren
             return b.vsym[a[0]]          # a whole declared (matrix valued) variable
         if op == 'xg':
             return b.xs[a[0]]            # a whole declared (vector/matrix valued) state inside an expression (element-wise arithmetic)
+        if op == 'ug':
+            return b.ugroups[a[0]]       # a whole declared (vector valued) control
+        if op == 'cvec':
+            return ca.MX(ca.DM([float(v_) for v_ in a[0]]))
         return {'t': st.t, 'T': st.T, 't0': st.t0, 'tf': st.tf, 'DT': st.DT, 'DTc': st.DT_control}[op]
 
     def wrap(op, e):
@@ -236,6 +250,8 @@ def declare(spec, cfg, poly=False, ocp=None, stage=None, with_method=True, paren
             return b.vsym[e.a[0]]
         if isinstance(e, E) and e.op == 'xg':
             return b.xs[e.a[0]]          # a whole declared (vector/matrix valued) state
+        if isinstance(e, E) and e.op == 'ug':
+            return b.ugroups[e.a[0]]     # a whole declared (vector valued) control
         if isinstance(e, E) and e.op == 'zg':
             return b.zgroups[e.a[0]]     # a whole declared (vector valued) algebraic variable
         if not isinstance(e, E):
@@ -336,6 +352,8 @@ def guess_value(val, b):
         return b.mx(val)
     if isinstance(val, (int, float, Fraction)):
         return float(val)
+    if isinstance(val, (list, tuple)) and val and all(isinstance(v_, E) for v_ in val):
+        return b.mx(list(val))          # a vector of expressions (one per element of a vector-valued symbol)
     return ca.DM(np.array(fnum(val), dtype=float))
 
 
